@@ -9,3 +9,8 @@ def run(tier, seed):
             invariants=["TypeOK", "WindowPartition", "SnapshotUnion", "HalfOpen"],
             configs=[dict(n=2, maxw=2, batches=False, metaops=False, xs=[0, 1, 2] if tier == "thorough" else [0, 1])])
     return run_container("C03", "temp", tier, seed, res=res, plan={"derive": ("temporal", 0.35 if tier == "quick" else 0.6)})
+
+
+def replay(path):
+    from checks.containers import replay_container
+    return replay_container("C03", path)
